@@ -12,11 +12,18 @@ theorems about the executable model of `dialect::OrthoPlanariser` (only theorems
            role, one x-part, the whole sweep), PlanariseGood.lean (decidable hypothesis), PlanariseConn(Sweep).lean (cuts preserve
            connections, tail tracking), PlanariseNoCross(Sweep).lean (piece geometry, no crossing node inside a piece).
 
-What is proved about the code as modelled, for ALL finite lists of axis-parallel segments with the stated hypothesis
-`Good` (sections 3–5): the sweep reports exactly the crossings its condition describes; every input segment stays
-connected through crossing nodes only; no two result edges cross.  These are statements about `computeCrossings`, i.e.
-`removeEdgeCrossings` run on the overlap-free graph; `removeEdgeOverlaps` (bend nodes, node groups) is modelled and tied
-exactly but has no theorem beyond `planarise_preserves_nodes` — hence the `_partial` suffixes.
+What is proved about the code as modelled (section numbers below):
+  (0)–(1) the comparator, `std::sort`, for all inputs;  (2) original nodes kept, all inputs;
+  (3)–(5) the crossing sweep `computeCrossings` on ALL segment lists satisfying `Good`: reported crossings = the sweep
+          condition (sound + complete), connections survive, no two result edges cross;
+  (6)     the whole `planarise` from the route segments on, hypothesis `GoodA` (collinear route segments may overlap);
+  (7)     the whole `planarise` on the raw input, hypothesis `SepInput ∧ NoCentreInside` (decidable `sepInputB`):
+          no two edges cross; every node kept; every edge realised by a chain of bend / crossing nodes only
+          (`…_partial`: "in route order" is not part of the statement);
+  (8)     closed witnesses: the length hypothesis is necessary (known finding C19-planarise-shortseg, both faces), the
+          asymmetric treatment of T-touches.
+Every hypothesis has an executable form (`goodB`, `goodAB`, `sepInputB`) with a soundness theorem; the driver evaluates the
+conclusions on the LIBRARY's output whenever the executable hypothesis holds.
 -/
 import AdaptaVerif.Lemmas.PlanariseSweep
 import AdaptaVerif.Lemmas.PlanariseGood
@@ -268,7 +275,7 @@ edges whose intermediate nodes are crossing nodes or ends of route segments lyin
 line, strictly between its ends).  Together with `planarise_preserves_nodes`, and since consecutive route segments of an
 edge share their bend node, this is the clause "every original node is still present and still connected to its former
 neighbours through chains of new nodes" — the intermediate segment ends are bend nodes, not original nodes, exactly when
-no route passes through the centre of a third node (`separatedB` checks that on the input). -/
+no route passes through the centre of a third node (`NoCentreInside`; composed in section 7). -/
 theorem planarise_preserves_connections (inp : Input) (hA : GoodA (segsAOf inp)) :
     ∀ s ∈ segsAOf inp, ∃ mids : List Node,
       (∀ m ∈ mids, m ∈ (planarise inp).crossNodes ∨
